@@ -1,8 +1,37 @@
-import Ccp.Model.Brace
+import Ccp.Proofs.Brace
+/-!
+# C08 — brace-delimited configs become an indentation tree that mirrors the nesting
+
+Property theorems only.  Specification (`Stmt`, `flatten`, `Layout`, `render`,
+well-formedness): `Ccp/Spec/Brace.lean`; model: `Ccp/Model/Brace.lean`; lemmas:
+`Ccp/Proofs/Brace.lean`.
+-/
 namespace Ccp.C08
 open Ccp.Brace Ccp.Py
 
-/-- the width `CiscoConfParse(syntax='junos')` indents with is the property's "four spaces" -/
+/-- the width `CiscoConfParse(syntax='junos')` indents with is the property's "four spaces"
+(table lemma over the generated constant) -/
 theorem stop_width_is_four : Gen.junosStopWidth = 4 := by decide
+
+/-- **Round trip.**  For every well-formed statement tree (words: non-empty visible ASCII
+without braces; first word of a statement not starting with a quote — F31; last word not
+ending in `;`) and every layout whose white space consists of blanks, LF and CR — indentation,
+blank lines, trailing blanks, semicolon present or absent per statement, brace on the same or
+a later line, one-line blocks, empty blocks, several blocks on a line — whatever way the
+rendering is cut into input lines, `CiscoConfParse(lines, syntax='junos')` hands the
+bootstrap exactly the preorder flattening, four blanks per enclosing block, closing braces
+producing nothing.
+
+Full statement wanted (`brace_roundtrip`): the same with tabs allowed in the white-space
+fields of the layout (pyparsing expands them to blanks before parsing).  Missing layout
+dimension: tabs.  `#` comment lines are not a layout dimension: `BraceParse` never consults
+`comment_delimiters`, a comment line is a statement and yields a line (it is covered here as
+a leaf whose first word starts with `#`). -/
+theorem brace_roundtrip_partial (L : Layout) (T : List Stmt) (hT : ListOk T) (hL : LayoutOk L)
+    (lines : List Str) (hne : lines ≠ []) (hl : join ['\n'] lines = render L T) :
+    junosToIos lines = .ok (flatten T) := by
+  unfold junosToIos convertJunosToIos
+  rw [if_neg hne, hl, stop_width_is_four]
+  exact braceText_render L hL T hT
 
 end Ccp.C08
